@@ -589,6 +589,9 @@ func (fc *FuncCtx) callFunction(x *ssa.Call, fn *ssa.Function, args []Val, bindi
 				fc.assume(reach, fc.evalBool(penv, e.E))
 			}
 		})
+		if ct.Trusted && len(ct.Ensures) > 0 {
+			fc.probe(fmt.Sprintf("vacuity/after-%s", site), reach)
+		}
 		if ct.Trusted {
 			fc.noteAssumption(fmt.Sprintf("trusted contract of %s (%s:%d)", fn.String(), relFile(ct.File), ct.Line))
 		}
@@ -606,6 +609,9 @@ func (fc *FuncCtx) callFunction(x *ssa.Call, fn *ssa.Function, args []Val, bindi
 		for _, a := range ss.Assumes {
 			fc.assume(reach, fc.evalBool(benv, a.E))
 			fc.noteAssumption(fmt.Sprintf("assumed at call site %s of %s: %s (%s:%d)", site, fc.Key, a.Text, relFile(a.File), a.Line))
+		}
+		if len(ss.Assumes) > 0 {
+			fc.probe(fmt.Sprintf("vacuity/after-%s", site), reach)
 		}
 	}
 	return pack(rs)
